@@ -10,7 +10,7 @@ storage server, C22); repair itself is download (C02) followed by `upload` with 
 `VCfg.asIs` is the verifier as it was before the fix, `VCfg.repaired` the verifier as it is in /repo now (fix fb3513d =
 fixes/C45-verify-block-root.diff: the block hash tree root is taken from the validated share hash leaf).
 
-As built: 25 theorems (one `_partial`) — `verified_good_implies_all_valid` (+ `verified_good_counterexample` for the old verifier),
+As built: 26 theorems (one `_partial`) — `verified_good_implies_all_valid` (+ `verified_good_counterexample` for the old verifier),
 `healthy_iff_N_good`, `recoverable_iff_k_good`, `corrupt_shares_listed`, `noverify_believes_servers`,
 `recoverable_unhealthy_repair_attempted`, `repair_uses_original_parameters`, `repair_regenerates_identical_shares`,
 `post_repair_healthy_implies_N_good`, `repair_never_alters_good_shares`, `repair_output_is_encoder_output`,
@@ -18,7 +18,7 @@ As built: 25 theorems (one `_partial`) — `verified_good_implies_all_valid` (+ 
 `repaired_share_block_accepted`, `repaired_share_block_fetch_chain`, `validation_stages_keep_trees_closed`,
 `anchored_repaired_share_delivers_block`, `fresh_repaired_share_delivers_block`, `tail_stages_deliver_block`,
 `repaired_share_passes_ct_stage_any`, `known_chain_repaired_share_delivers_block`,
-`validation_stages_keep_trees_sibclosed`, `readable_from_repaired_shares_partial`. Further model parts: `checkServerShares` /
+`validation_stages_keep_trees_sibclosed`, `repaired_share_block_fetch_chain_any`, `readable_from_repaired_shares_partial`. Further model parts: `checkServerShares` /
 `checkNoVerify`, `repairDecision`, `repairParams`, `gatherRepairResults`, `corruptLocators`. Driver lean/Drv/C45.lean
 (`veup`, `fmt`, `fmtlists`, `noverify`, `verify`, `repairdecision`, `repairparams`, `postrepair`, `repair`) ties each
 of them to the code. Only partially proved (monitor end to end): that the file can be read from the repaired shares alone. -/
@@ -426,6 +426,37 @@ theorem repaired_share_passes_ct_stage_any (E : Env H) (cfg : Cfg) (prm : Params
       lt_of_get_ne_none (by rw [hg]; simp)
     rw [stageCtHashes_held_leaf E cfg pick segnum v nd hk hcl hsc hL (by rw [hg]; simp)]
 
+/-- **repaired_share_block_fetch_chain_any**: `repaired_share_block_fetch_chain` whether or not the block hash leaf of
+    the segment is already held (a second reader fetching the same segment from the same share): with the leaf held the
+    block-hash stage has nothing to ask (`held_leaf_needs_nothing`), the uncle chain is held (`held_leaf_chain_held`)
+    and the data stage compares the block with the stored leaf. -/
+theorem repaired_share_block_fetch_chain_any (E : Env H) (cfg : Cfg) (prm : Params) (ser : UEB H → Bytes)
+    (encode : Nat → Bytes → Nat → Bytes) (ct : Bytes) (sz : Sizes) (S : Setup E cfg prm ser encode ct sz)
+    (Prep : Published H) (hrep : Prep = upload E prm encode ser ct)
+    (pick : List Nat → Nat) (shnum segnum : Nat) (v : View H) (nd : Node H) (u : UEB H)
+    (hk : nd.known = some (u, sz))
+    (hok : TreeOK E.ops (Prep.blockT shnum) (nd.blockTree shnum sz.numSegs))
+    (hcl : Closed (nd.blockTree shnum sz.numSegs)) (hsc : SibClosed (nd.blockTree shnum sz.numSegs))
+    (hseg : segnum < sz.numSegs)
+    (hhonest : ∀ i, i < (Prep.blockT shnum).length → v.blockHashes i = Base.Merkle.get (Prep.blockT shnum) i)
+    (hblock : v.block = Prep.block shnum segnum)
+    (hsize : ¬ (v.block.isEmpty ∨
+      v.block.length ≠ (if segnum + 1 = sz.numSegs then sz.tailBlockSize else sz.blockSize))) :
+    (stageBlockHashes E cfg pick shnum segnum v nd).1 = none ∧
+    (stageData E cfg pick shnum segnum v (stageBlockHashes E cfg pick shnum segnum v nd).2).1
+      = some (.block (Prep.block shnum segnum)) := by
+  cases hg : Base.Merkle.get (nd.blockTree shnum sz.numSegs) (firstLeafNum sz.numSegs + segnum) with
+  | none =>
+    exact repaired_share_block_fetch_chain E cfg prm ser encode ct sz S Prep hrep pick shnum segnum v nd u hk hok hcl
+      hseg hg hhonest hblock hsize
+  | some w =>
+    have hheld : Base.Merkle.get (nd.blockTree shnum sz.numSegs) (firstLeafNum sz.numSegs + segnum) ≠ none := by
+      rw [hg]; simp
+    have e := stageBlockHashes_held_leaf E cfg pick shnum segnum v nd hk hcl hsc (lt_of_get_ne_none hheld) hheld
+    rw [e]
+    exact ⟨rfl, repaired_share_block_accepted E cfg prm ser encode ct sz S Prep hrep pick shnum segnum v nd u hk
+      hok.2.1 hok.2.2.1 hcl hseg (held_leaf_chain_held hcl hsc hheld) hblock hsize⟩
+
 /-- the last three stages (`_satisfy_block_hash_tree`, `_satisfy_ciphertext_hash_tree`, `_satisfy_data_block`) run in
     sequence on a node whose block hash tree for the share is anchored: helper of the two whole-pass theorems -/
 theorem tail_stages_deliver_block (E : Env H) (cfg : Cfg) (prm : Params) (ser : UEB H → Bytes)
@@ -435,7 +466,7 @@ theorem tail_stages_deliver_block (E : Env H) (cfg : Cfg) (prm : Params) (ser : 
     (hk : nd.known = some (u, sz)) (hseg : segnum < sz.numSegs)
     (hok : TreeOK E.ops (Prep.blockT shnum) (nd.blockTree shnum sz.numSegs))
     (hcl : Closed (nd.blockTree shnum sz.numSegs))
-    (hnew : Base.Merkle.get (nd.blockTree shnum sz.numSegs) (firstLeafNum sz.numSegs + segnum) = none)
+    (hsc : SibClosed (nd.blockTree shnum sz.numSegs))
     (hhonest : ∀ i, i < (Prep.blockT shnum).length → v.blockHashes i = Base.Merkle.get (Prep.blockT shnum) i)
     (hctlen : nd.ctTree.length = Prep.ctT.length) (hctag : Agree nd.ctTree Prep.ctT) (hctcl : Closed nd.ctTree)
     (hctsc : SibClosed nd.ctTree)
@@ -445,8 +476,8 @@ theorem tail_stages_deliver_block (E : Env H) (cfg : Cfg) (prm : Params) (ser : 
       v.block.length ≠ (if segnum + 1 = sz.numSegs then sz.tailBlockSize else sz.blockSize))) :
     (runStages [stageBlockHashes E cfg pick shnum segnum v, stageCtHashes E cfg pick segnum v,
         stageData E cfg pick shnum segnum v] nd).1 = .block (Prep.block shnum segnum) := by
-  obtain ⟨h6, _⟩ := repaired_share_block_fetch_chain E cfg prm ser encode ct sz S Prep hrep pick shnum segnum v nd u
-    hk hok hcl hseg hnew hhonest hblock hsize
+  obtain ⟨h6, _⟩ := repaired_share_block_fetch_chain_any E cfg prm ser encode ct sz S Prep hrep pick shnum segnum v nd u
+    hk hok hcl hsc hseg hhonest hblock hsize
   rw [runStages_cons_none h6]
   obtain ⟨hk1, hct1, _⟩ := stageBlockHashes_frame E cfg pick shnum segnum v nd
   obtain ⟨_, hok1⟩ := stageBlockHashes_sound (cfg := cfg) S.strict S.inj pick shnum segnum v nd hk hok
@@ -490,7 +521,7 @@ theorem anchored_repaired_share_delivers_block (E : Env H) (cfg : Cfg) (prm : Pa
     (hroot : truthyOpt E.ops (Base.Merkle.get (nd.blockTree shnum sz.numSegs) 0) = true)
     (hok : TreeOK E.ops (Prep.blockT shnum) (nd.blockTree shnum sz.numSegs))
     (hcl : Closed (nd.blockTree shnum sz.numSegs))
-    (hnew : Base.Merkle.get (nd.blockTree shnum sz.numSegs) (firstLeafNum sz.numSegs + segnum) = none)
+    (hsc : SibClosed (nd.blockTree shnum sz.numSegs))
     (hhonest : ∀ i, i < (Prep.blockT shnum).length → v.blockHashes i = Base.Merkle.get (Prep.blockT shnum) i)
     (hctlen : nd.ctTree.length = Prep.ctT.length) (hctag : Agree nd.ctTree Prep.ctT) (hctcl : Closed nd.ctTree)
     (hctsc : SibClosed nd.ctTree)
@@ -515,8 +546,8 @@ theorem anchored_repaired_share_delivers_block (E : Env H) (cfg : Cfg) (prm : Pa
     unfold stageBlockRoot; rw [hk]; simp only; rw [if_pos hroot]
   rw [runStages_cons_none (by rw [e5]), e5]
   -- block hash tree
-  obtain ⟨h6, _⟩ := repaired_share_block_fetch_chain E cfg prm ser encode ct sz S Prep hrep pick shnum segnum v nd u
-    hk hok hcl hseg hnew hhonest hblock hsize
+  obtain ⟨h6, _⟩ := repaired_share_block_fetch_chain_any E cfg prm ser encode ct sz S Prep hrep pick shnum segnum v nd u
+    hk hok hcl hsc hseg hhonest hblock hsize
   rw [runStages_cons_none h6]
   obtain ⟨hk1, hct1, _⟩ := stageBlockHashes_frame E cfg pick shnum segnum v nd
   obtain ⟨_, hok1⟩ := stageBlockHashes_sound (cfg := cfg) S.strict S.inj pick shnum segnum v nd hk hok
@@ -574,7 +605,7 @@ example :
 /-- **fresh_repaired_share_delivers_block** (the FIRST `_get_satisfaction` pass over a share, all eight stages): on a
     download node that has validated the UEB, holds an anchored closed partial copy of the repairer's share hash tree
     that still lacks part of the uncle chain of share `shnum`, and has never seen that share (its block hash tree is
-    empty), a repaired (or old) share of a file of at least two segments — sane offsets, `Prep`'s share hash chain,
+    empty), a repaired (or old) share — sane offsets, `Prep`'s share hash chain,
     block hashes, crypttext hashes and block — is answered with exactly the published block: the share hash chain is
     accepted, the block hash root is taken from the validated leaf, and the remaining stages follow
     (`tail_stages_deliver_block`). Together with `anchored_repaired_share_delivers_block` this covers every pass. -/
@@ -582,7 +613,7 @@ theorem fresh_repaired_share_delivers_block (E : Env H) (cfg : Cfg) (prm : Param
     (encode : Nat → Bytes → Nat → Bytes) (ct : Bytes) (sz : Sizes) (S : Setup E cfg prm ser encode ct sz)
     (Prep : Published H) (hrep : Prep = upload E prm encode ser ct)
     (pick : List Nat → Nat) (shnum segnum : Nat) (v : View H) (nd : Node H) (u : UEB H)
-    (hk : nd.known = some (u, sz)) (hseg : segnum < sz.numSegs) (h2 : 2 ≤ sz.numSegs) (hsh : shnum < prm.n)
+    (hk : nd.known = some (u, sz)) (hseg : segnum < sz.numSegs) (hsh : shnum < prm.n)
     (hoff : satisfyOffsets v.version v.offs = none)
     (hshare : TreeOK E.ops Prep.shareT nd.shareTree) (hshcl : Closed nd.shareTree)
     (hne : (neededHashes nd.shareTree (firstLeafNum prm.n + shnum)).isEmpty = false)
@@ -640,13 +671,10 @@ theorem fresh_repaired_share_delivers_block (E : Env H) (cfg : Cfg) (prm : Param
   have hok2 := (stageBlockRoot_sound (cfg := cfg) S.strict S.inj pick shnum hsh nd' (by rw [hk']; exact hk)
     (calcSizes_numSegs S.sizes) hshare' (Or.inl hbt') _ e5).2.2
   rw [runStages_cons_none (by rw [e5]), e5]
-  have hL0 : 0 ≠ firstLeafNum sz.numSegs + segnum := by
-    have := roundupPow2_ge sz.numSegs
-    unfold firstLeafNum; omega
   exact tail_stages_deliver_block E cfg prm ser encode ct sz S _ rfl pick shnum segnum v _ u
     (by rw [(setBlockTree_known nd' shnum _).1, hk']; exact hk) hseg hok2
     (by rw [blockTree_set_same]; exact seed_closed _ _)
-    (by rw [blockTree_set_same]; unfold seed; rw [get_set_ne _ hL0, get_newTree])
+    (by rw [blockTree_set_same]; exact seed_keeps_sibClosed (newTree_sibClosed _) _)
     hhonest
     (by rw [(setBlockTree_known nd' shnum _).2.2, hct']; exact hctlen)
     (by rw [(setBlockTree_known nd' shnum _).2.2, hct']; exact hctag)
@@ -658,12 +686,12 @@ theorem fresh_repaired_share_delivers_block (E : Env H) (cfg : Cfg) (prm : Param
     hash chain is already held because other shares supplied it): the share hash stage has nothing to ask, the leaf
     of `shnum` is held (sibling-closedness), the block hash root is taken from it, and the remaining stages follow.
     With `anchored_…` (share seen before) and `fresh_…` (chain not yet held) every pass of `_get_satisfaction` over a
-    repaired share of a file of at least two segments is covered. -/
+    repaired share is covered. -/
 theorem known_chain_repaired_share_delivers_block (E : Env H) (cfg : Cfg) (prm : Params) (ser : UEB H → Bytes)
     (encode : Nat → Bytes → Nat → Bytes) (ct : Bytes) (sz : Sizes) (S : Setup E cfg prm ser encode ct sz)
     (Prep : Published H) (hrep : Prep = upload E prm encode ser ct)
     (pick : List Nat → Nat) (shnum segnum : Nat) (v : View H) (nd : Node H) (u : UEB H)
-    (hk : nd.known = some (u, sz)) (hseg : segnum < sz.numSegs) (h2 : 2 ≤ sz.numSegs) (hsh : shnum < prm.n)
+    (hk : nd.known = some (u, sz)) (hseg : segnum < sz.numSegs) (hsh : shnum < prm.n)
     (hoff : satisfyOffsets v.version v.offs = none)
     (hshare : TreeOK E.ops Prep.shareT nd.shareTree) (hshsc : SibClosed nd.shareTree)
     (hempty : (neededHashes nd.shareTree (firstLeafNum prm.n + shnum)).isEmpty = true)
@@ -719,13 +747,10 @@ theorem known_chain_repaired_share_delivers_block (E : Env H) (cfg : Cfg) (prm :
   have hok2 := (stageBlockRoot_sound (cfg := cfg) S.strict S.inj pick shnum hsh nd hk
     (calcSizes_numSegs S.sizes) hshare (Or.inl hbt) _ e5).2.2
   rw [runStages_cons_none (by rw [e5]), e5]
-  have hL0 : 0 ≠ firstLeafNum sz.numSegs + segnum := by
-    have := roundupPow2_ge sz.numSegs
-    unfold firstLeafNum; omega
   exact tail_stages_deliver_block E cfg prm ser encode ct sz S _ rfl pick shnum segnum v _ u
     (by rw [(setBlockTree_known nd shnum _).1]; exact hk) hseg hok2
     (by rw [blockTree_set_same]; exact seed_closed _ _)
-    (by rw [blockTree_set_same]; unfold seed; rw [get_set_ne _ hL0, get_newTree])
+    (by rw [blockTree_set_same]; exact seed_keeps_sibClosed (newTree_sibClosed _) _)
     hhonest
     (by rw [(setBlockTree_known nd shnum _).2.2]; exact hctlen)
     (by rw [(setBlockTree_known nd shnum _).2.2]; exact hctag)
